@@ -370,7 +370,7 @@ class C14(Check):
 
     def budget(self, tier, escalated):
         n = 6000 if tier == 'quick' else 200000
-        return n * (4 if escalated and tier == 'quick' else 1)
+        return n * (2 if escalated and tier == 'quick' else 1)
 
     def nontrivial(self, sample):
         s = str(sample)
